@@ -550,10 +550,12 @@ class TFLiteSupportedOperators:
 
     @staticmethod
     def constraint_batch_size(op):
-        "IFM Tensor batch size must be 1"
+        "IFM and OFM Tensor batch size must be 1"
         valid = True
         extra = []
-        for tens in (op.ifm, op.ifm2):
+        # The OFM is checked as well: a CONCATENATION along the batch axis or a PACK of 3D tensors has IFMs of batch 1
+        # but writes an OFM with a batch > 1, which the NPU operations (addressed by height, width and depth) cannot do
+        for tens in (op.ifm, op.ifm2, op.ofm):
             if tens is not None:
                 batch_size = full_shape(4, tens.shape, 1)[0]
                 if batch_size != 1:
